@@ -172,6 +172,26 @@ func checkC15(c *Ctx) {
 	checkRemovalIdentity(c, "R6")
 
 	// ---------------- R7
+	tierInserters, tierDeleters := map[*ssa.Function]bool{}, map[*ssa.Function]bool{}
+	for _, fn := range p.FuncsIn(hostPkg) {
+		if p.isTestFn(fn) {
+			continue
+		}
+		eachInstr(fn, func(_ *ssa.BasicBlock, _ int, in ssa.Instruction) {
+			switch x := in.(type) {
+			case *ssa.MapUpdate:
+				if f, _ := loadedField(x.Map); f == hm || f == hb {
+					tierInserters[fn] = true
+				}
+			case *ssa.Call:
+				if isBuiltin(x, "delete") {
+					if f, _ := loadedField(x.Call.Args[0]); f == hm || f == hb {
+						tierDeleters[fn] = true
+					}
+				}
+			}
+		})
+	}
 	nUp := 0
 	for _, fn := range p.FuncsIn(hostPkg) {
 		if p.isTestFn(fn) {
@@ -189,6 +209,7 @@ func checkC15(c *Ctx) {
 			site := fmt.Sprintf("%s member overwrite#%d", fnKey(fn), nUp)
 			// a lookup all[sameKey] whose found branch calls removeFromHealthy(old) / deletes from both tiers, dominating the update
 			purged := false
+			var lateAt ssa.Instruction
 			eachInstr(fn, func(b2 *ssa.BasicBlock, _ int, in2 ssa.Instruction) {
 				lk, ok := in2.(*ssa.Lookup)
 				if !ok || !lk.CommaOk {
@@ -214,14 +235,29 @@ func checkC15(c *Ctx) {
 					if cc == nil {
 						return
 					}
-					if g := calleeFn(cc); g != nil && g.Name() == "removeFromHealthy" {
+					if g := calleeFn(cc); g != nil && tierDeleters[g] {
 						if derives(cc.Args[len(cc.Args)-1], func(v ssa.Value) bool { return v == old }) {
 							purged = true
+							// the purge deletes by address: it must not run after the new object was inserted
+							eachInstr(fn, func(_ *ssa.BasicBlock, _ int, in4 ssa.Instruction) {
+								c4 := callOf(in4)
+								if c4 == nil {
+									return
+								}
+								if g4 := calleeFn(c4); g4 != nil && tierInserters[g4] {
+									// (a path that re-reads the member map first purges what is stored then: fine)
+									if findPath(posOf(in4), pathQuery{target: func(x ssa.Instruction) bool { return x == in3 }, avoid: func(x ssa.Instruction) bool { return x == in2 }}) != nil {
+										lateAt = in3
+									}
+								}
+							})
 						}
 					}
 				})
 			})
-			if purged {
+			if purged && lateAt != nil {
+				c.Fail("R7", site, lateAt.Pos(), "the previous object of the address is purged from the healthy tiers after the new objects were inserted: the purge deletes by type and address, so a re-announced host is inserted and deleted again - it stays a member, marked healthy, but is in no tier and never comes back")
+			} else if purged {
 				c.OK("R7", site, in.Pos(), "the previous object of the address is removed from the healthy tiers first")
 			} else {
 				c.Fail("R7", site, in.Pos(), "the member map entry of an address is overwritten without purging the previous object from the healthy tiers: re-adding an address with another type leaves the old object in the old tier, where it is still reported although it is no longer a member")
@@ -641,6 +677,7 @@ func checkTierIdentity(c *Ctx, rule string) {
 							walk(e, d+1)
 						}
 					case *ssa.MakeSlice:
+					case *ssa.Const: // nil slice
 					case *ssa.Call:
 						if isBuiltin(x, "append") {
 							walk(x.Call.Args[0], d+1)
@@ -679,6 +716,40 @@ func checkTierIdentity(c *Ctx, rule string) {
 				why := ""
 				for _, e := range elems {
 					if fromAll(e) {
+						continue
+					}
+					// just stored: all[k] = e dominates the call and nothing else writes the member map in between
+					justStored := false
+					eachInstr(fn, func(_ *ssa.BasicBlock, _ int, x ssa.Instruction) {
+						mu, isMU := x.(*ssa.MapUpdate)
+						if !isMU || mu.Value != e {
+							return
+						}
+						if f, _ := loadedField(mu.Map); f != all {
+							return
+						}
+						if !instrDominates(x, call) {
+							return
+						}
+						other := findPath(posOf(x), pathQuery{target: func(y ssa.Instruction) bool {
+							if y == x {
+								return false
+							}
+							if m2, ok := y.(*ssa.MapUpdate); ok {
+								f, _ := loadedField(m2.Map)
+								return f == all
+							}
+							if isBuiltin(y, "delete") {
+								f, _ := loadedField(callOf(y).Args[0])
+								return f == all
+							}
+							return false
+						}, avoid: func(y ssa.Instruction) bool { return y == ssa.Instruction(call) }})
+						if other == nil {
+							justStored = true
+						}
+					})
+					if justStored {
 						continue
 					}
 					// (c) identity guard
@@ -746,6 +817,11 @@ func checkTierIdentity(c *Ctx, rule string) {
 					}
 				}
 				c.Fail(rule, site, call.Pos(), "the elements of the slice handed to the tier mutator are not stored into the member map by this function: the tiers can hold objects the member map does not know")
+				return
+			}
+			// a later element of the same batch may overwrite the entry before the batch is handed to the tier
+			if again := findPath(posOf(upd), pathQuery{target: func(x ssa.Instruction) bool { return x == upd }, avoid: func(x ssa.Instruction) bool { return x == ssa.Instruction(call) }}); again != nil {
+				c.Fail(rule, site, call.Pos(), "the whole batch is handed to the tier after the loop that stores it into the member map: when one batch names an address twice (e.g. with two types) the earlier object is overwritten in the member map but still inserted into its tier - reported as usable although it is not a member")
 				return
 			}
 			path := findPath(posOf(ld), pathQuery{target: func(x ssa.Instruction) bool { return x == ssa.Instruction(call) }, avoid: func(x ssa.Instruction) bool { return x == upd }})
